@@ -289,6 +289,9 @@ func c03Check(l *explore.Local, e *cpuEnv, c c03Case) *explore.Fail {
 		if !plainAddr(a.Addr) {
 			return nil
 		}
+		if c.Pre > 0 && a.Addr+2 >= regs.PC && a.Addr < regs.PC+4 {
+			return nil // the predecessor left PC inside the data area (JP (HL) ...): markers would overwrite the code
+		}
 		if a.Write {
 			writes = append(writes, a)
 		} else {
@@ -342,6 +345,9 @@ func c03Check(l *explore.Local, e *cpuEnv, c c03Case) *explore.Fail {
 		}
 	}
 	if !chosen {
+		if c.Pre > 0 {
+			return nil // the registers the predecessor left make the value read unobservable (e.g. AND (HL) with A=0)
+		}
 		return explore.Failf("harness: no marker pair distinguishes the read cycle", "op %s", opName(info))
 	}
 	expWrites := append([]ref.Access(nil), e.log...)
